@@ -20,6 +20,12 @@ def dispatch(prop):
     if prop in ("C16", "C15"):
         import sampleset_check
         return sampleset_check.main
+    if prop == "C02":
+        import e3_weights
+        return e3_weights.main
+    if prop == "C05":
+        import e3_target
+        return e3_target.main
     raise SystemExit(f"unknown property {prop}")
 
 
